@@ -13,19 +13,31 @@ mkdir -p "$ROOT/bin" "$ROOT/evidence" "$ROOT/replays"
 ID="$1"; TIER="${2:-quick}"
 BIN=$ROOT/bin/vcheck.$$.$ID
 BUILDARGS=""
+# VERIF_REPO (development only: mutation runs in a scratch worktree) selects another tree under
+# test; the registered commands never set it, so they always build /repo's working tree.
+# VERIF_OUT redirects evidence/, results/ and replays/ (so that such runs do not overwrite evidence).
+REPO="${VERIF_REPO:-/repo}"
+export VERIF_REPO="$REPO"
+MODFLAG=""
+if [ "$REPO" != "/repo" ]; then
+  sed "s#=> /repo#=> $REPO#" go.mod > $ROOT/bin/go.$$.$ID.mod
+  cp go.sum $ROOT/bin/go.$$.$ID.sum 2>/dev/null
+  MODFLAG="-modfile=$ROOT/bin/go.$$.$ID.mod"
+fi
+[ -n "${VERIF_OUT:-}" ] && mkdir -p "$VERIF_OUT"
 OVDIR=""
 if [ "$ID" = "C14" ]; then
   OVDIR=$ROOT/bin/ov.$$
-  if python3 $ROOT/tools/mkoverlay.py "$OVDIR" >/dev/null 2>&1 && go build -tags verifshim -overlay "$OVDIR/overlay.json" -o "$BIN" ./cmd/vcheck 2>$ROOT/bin/build.$ID.log; then
+  if python3 $ROOT/tools/mkoverlay.py "$OVDIR" >/dev/null 2>&1 && go build $MODFLAG -tags verifshim -overlay "$OVDIR/overlay.json" -o "$BIN" ./cmd/vcheck 2>$ROOT/bin/build.$ID.log; then
     BUILDARGS=done
   else
     echo "note: sync shim overlay build failed, falling back to the plain build" >&2
   fi
-  if go build -race -o $ROOT/bin/vrace.$$ ./cmd/vrace 2>>$ROOT/bin/build.$ID.log; then
+  if go build $MODFLAG -race -o $ROOT/bin/vrace.$$ ./cmd/vrace 2>>$ROOT/bin/build.$ID.log; then
     export VERIF_RACE_BIN=$ROOT/bin/vrace.$$
   fi
 fi
-if [ "$BUILDARGS" != "done" ] && ! go build -o "$BIN" ./cmd/vcheck 2>$ROOT/bin/build.$ID.log; then
+if [ "$BUILDARGS" != "done" ] && ! go build $MODFLAG -o "$BIN" ./cmd/vcheck 2>$ROOT/bin/build.$ID.log; then
   echo "harness build failed against /repo working tree:" >&2
   cat $ROOT/bin/build.$ID.log >&2
   rm -f "$BIN"
@@ -34,13 +46,13 @@ fi
 GXZ=""
 case "$ID" in C10|C15)
   GXZ=$ROOT/bin/gxz.$$.$ID
-  if ! (cd /repo && go build -o "$GXZ" ./cmd/gxz) 2>$ROOT/bin/build.$ID.log; then
+  if ! (cd "$REPO" && go build -o "$GXZ" ./cmd/gxz) 2>$ROOT/bin/build.$ID.log; then
     echo "gxz build failed:" >&2; cat $ROOT/bin/build.$ID.log >&2; rm -f "$BIN"; exit 2
   fi
   export VERIF_GXZ="$GXZ";;
 esac
 "$BIN" "$ID" --tier "$TIER"
 rc=$?
-rm -f "$BIN" $GXZ $ROOT/bin/vrace.$$
+rm -f "$BIN" $GXZ $ROOT/bin/vrace.$$ $ROOT/bin/go.$$.$ID.mod $ROOT/bin/go.$$.$ID.sum
 [ -n "$OVDIR" ] && rm -rf "$OVDIR"
 exit $rc
